@@ -2,7 +2,12 @@ package main
 
 import (
 	"fmt"
+	"math/rand"
+	"net/http/httptest"
+	"runtime"
 	"strings"
+	"sync"
+	"sync/atomic"
 	"time"
 
 	"github.com/0xReLogic/Helios/internal/config"
@@ -414,6 +419,106 @@ func init() {
 			o.Distinct(fmt.Sprintf("%s|%v", c.Strategy, ops))
 			if c.Idx == 1 {
 				o.Sample(map[string]any{"part": "histories", "strategy": c.Strategy, "ops": ops})
+			}
+		})
+}
+
+// ---- pickers racing ejections (real threads, race-detector build): while some backend stays eligible throughout,
+// no pick may come back empty and no request may be refused, whatever the timing of the ejection of the others
+func init() {
+	type c02Conc struct {
+		Strategy string `json:"strategy"`
+		N        int    `json:"n_backends"`
+		G        int    `json:"pickers"`
+		Round    int    `json:"round"`
+	}
+	vh.AddPart("C02", "concurrent", "race", vh.Opts{Procs: 16, TimeoutS: 300, TimeoutSThorough: 1500},
+		func(e *vh.Env) []c02Conc {
+			var cs []c02Conc
+			for _, st := range allStrategies {
+				for _, n := range []int{2, 3, 6} {
+					for r := 0; r < e.Pick(2, 6); r++ {
+						cs = append(cs, c02Conc{st, n, []int{4, 8, 16}[r%3], r})
+					}
+				}
+			}
+			return cs
+		},
+		func(e *vh.Env, c c02Conc, o *vh.Out) {
+			o.Need("concurrent_picks", "ejections_during_picks")
+			cfg := baseConfig(c.Strategy, nil)
+			for i := 0; i < c.N; i++ {
+				cfg.Backends = append(cfg.Backends, config.BackendConfig{Name: fmt.Sprintf("b%d", i), Address: "http://127.0.0.1:9", Weight: 1 + i%3})
+			}
+			sys, err := startSys(cfg, nil, false)
+			if err != nil {
+				o.Inconcl("startSys: %v", err)
+				return
+			}
+			defer sys.Close()
+			live := sys.LB.VerifBackends()
+			// the last backend is never touched: it is eligible at every instant
+			var stop atomic.Bool
+			var ejections atomic.Int64
+			var ewg sync.WaitGroup
+			for k := 0; k < c.N-1; k++ {
+				k := k
+				ewg.Add(1)
+				go func() {
+					defer ewg.Done()
+					r := rand.New(rand.NewSource(e.Seed*31 + int64(c.Round)*7 + int64(k)))
+					for !stop.Load() {
+						sys.LB.MarkBackendUnhealthy(live[k], time.Duration(r.Intn(300))*time.Microsecond)
+						ejections.Add(1)
+						if r.Intn(4) == 0 {
+							time.Sleep(time.Duration(r.Intn(200)) * time.Microsecond)
+						} else {
+							runtime.Gosched()
+						}
+					}
+				}()
+			}
+			per := e.Pick(4000, 15000)
+			var wg sync.WaitGroup
+			var empty, picks atomic.Int64
+			firstEmpty := make([]string, c.G)
+			for g := 0; g < c.G; g++ {
+				g := g
+				wg.Add(1)
+				go func() {
+					defer wg.Done()
+					for i := 0; i < per; i++ {
+						rq := httptest.NewRequest("GET", "/c", nil)
+						rq.Header.Set("X-Forwarded-For", fmt.Sprintf("10.2.%d.%d", g, i%250))
+						picks.Add(1)
+						if b := sys.LB.NextBackend(rq); b == nil {
+							empty.Add(1)
+							if firstEmpty[g] == "" {
+								firstEmpty[g] = fmt.Sprintf("picker %d, pick %d, client 10.2.%d.%d", g, i, g, i%250)
+							}
+						}
+					}
+				}()
+			}
+			wg.Wait()
+			stop.Store(true)
+			ewg.Wait()
+			o.Eval(1)
+			o.Distinct(vh.J(c))
+			o.Obs("concurrent_picks", picks.Load())
+			o.Obs("ejections_during_picks", ejections.Load())
+			if n := empty.Load(); n > 0 {
+				w := ""
+				for _, f := range firstEmpty {
+					if f != "" {
+						w = f
+						break
+					}
+				}
+				o.Viol("C02|concurrent|empty-pick-with-eligible-backend|"+c.Strategy, fmt.Sprintf("%s, %d backends, %d pickers: %d of %d picks returned no backend although b%d was never ejected (%s)", c.Strategy, c.N, c.G, n, picks.Load(), c.N-1, w), nil)
+			}
+			if c.Strategy == "ip_hash" && c.N == 3 && c.Round == 0 {
+				o.Sample(map[string]any{"part": "concurrent", "case": c, "picks": picks.Load(), "ejections": ejections.Load()})
 			}
 		})
 }
